@@ -170,6 +170,23 @@ func (p *c03Pred) evalGroup(members []map[string]any) (res bool, ok bool) {
 	return cmpOp(p.Op, f, p.K), true
 }
 
+// c03Get reads a grouping column of a row; "o.p" is a path into the nested object.
+func c03Get(row map[string]any, col string) any {
+	if col == "o.p" {
+		o, _ := row["o"].(map[string]any)
+		return o["p"]
+	}
+	return row[col]
+}
+
+// c03Out is the name a selected grouping column gets in the output: the last segment of its path.
+func c03Out(col string) string {
+	if i := strings.LastIndex(col, "."); i >= 0 {
+		return col[i+1:]
+	}
+	return col
+}
+
 func keyEqual(a, b any) bool {
 	switch x := a.(type) {
 	case nil:
@@ -201,7 +218,7 @@ func referenceGroupBy(e *c03Expect, table []any) (rows []any, lenient [][]string
 		out := map[string]any{}
 		var open []string
 		for _, c := range e.SelCols {
-			out[c] = key[c]
+			out[c03Out(c)] = key[c]
 		}
 		if e.Star {
 			// `*` expands to the whole group row: every grouping column and the member list
@@ -237,7 +254,7 @@ func referenceGroupBy(e *c03Expect, table []any) (rows []any, lenient [][]string
 		for _, cand := range groups {
 			same := true
 			for _, c := range e.GroupBy {
-				if !keyEqual(cand.key[c], row[c]) {
+				if !keyEqual(cand.key[c], c03Get(row, c)) {
 					same = false
 					break
 				}
@@ -250,7 +267,7 @@ func referenceGroupBy(e *c03Expect, table []any) (rows []any, lenient [][]string
 		if g == nil {
 			g = &group{key: map[string]any{}}
 			for _, c := range e.GroupBy {
-				g.key[c] = row[c]
+				g.key[c] = c03Get(row, c)
 			}
 			groups = append(groups, g)
 		}
@@ -389,7 +406,7 @@ func genC03(t *rapid.T) *Bundle {
 	whole := rapid.IntRange(0, 4).Draw(t, "whole_table") == 0
 	if !whole {
 		ng := rapid.IntRange(1, 3).Draw(t, "ngroup")
-		e.GroupBy = rapid.Permutation([]string{"g1", "g2", "g3"}).Draw(t, "gcols")[:ng]
+		e.GroupBy = rapid.Permutation([]string{"g1", "g2", "g3", "o.p"}).Draw(t, "gcols")[:ng]
 		for _, c := range e.GroupBy {
 			if rapid.IntRange(0, 3).Draw(t, "sel_"+c) > 0 {
 				e.SelCols = append(e.SelCols, c)
